@@ -209,8 +209,8 @@ func (c *FnCtx) applyModifies(st, pre *State, ec *evalCtx, m *Clause) {
 			ls := sortOf(k.typ)
 			h := c.heapGet(st, k.key, ls)
 			old := c.defAlways("row", "(Array Int "+ls+")", sx("select", h, v.Ref))
-			row := c.declare("row", "(Array Int "+ls+")")
-			c.assume(st, fmt.Sprintf("(forall ((i Int)) (! (=> (not (and (<= %s i) (< i (+ %s %s)))) (= (select %s i) (select %s i))) :pattern ((select %s i))))", v.Off, v.Off, v.Len, row, old, row))
+			hv := c.declare("hvrow", "(Array Int "+ls+")")
+			row := c.defRow(ls, fmt.Sprintf("(ite (and (<= %s i) (< i (+ %s %s))) (select %s i) (select %s i))", v.Off, v.Off, v.Len, hv, old))
 			c.heapWriteRow(st, k.key, ls, v.Ref, row)
 		}
 	case kPtr:
@@ -479,6 +479,7 @@ func (eng *Engine) verifyFunction(fn *ssa.Function, con *Contract, bounded int) 
 	c.entry = st.clone()
 	rst, rvals := c.run(fr, st)
 	c.resultVals = rvals
+	c.exitState = rst
 	// postconditions at the merged return
 	if rst.guard != "false" {
 		pc := &evalCtx{c: c, st: rst, old: c.entry, pkg: pkg, preds: con.Preds, names: c.resolver(fr, nil, rvals), bound: c.lets}
